@@ -1,4 +1,5 @@
     requires estate.next_holder_commit_num <= COMMIT_LIMIT, commit_num <= COMMIT_LIMIT,
+        height_sane(*cstate), htlc_lens_sane(*info2),
     ensures
         // C02: a new holder state is refused once a holder signature was released ...
         r.is_ok() && vx_strict(T_policy_commitment_spends_active_utxo) && commit_num == estate.next_holder_commit_num
